@@ -98,16 +98,27 @@ def check(rep, tier):
                     SF.run(how="sequential")
                     fdf = SF.to_frame()
                     filt = {}
+                    tn_rows = fdf[fdf.variable == "t_nucleation"]
+                    flab = {int(x["vial"]): str(x["group"]) for _, x in fdf[fdf.seed == 0].iterrows()}
                     for g in GROUPS:
-                        sub = fdf[fdf.group.isin([g])]
-                        n_api = len(SF.nucleationTimes(group=g))
-                        filt[g] = (sorted(set(int(v) for v in sub[sub.seed == 0]["vial"])), n_api)
+                        # the vials the group filter of the accessors selects: its values are matched against the table rows, vial by vial
+                        api = np.asarray(SF.nucleationTimes(group=g), dtype=float)
+                        per_vial = [tn_rows[tn_rows.vial == v]["value"].to_numpy(dtype=float) for v in range(N)]
+                        sel = [v for v in range(N) if masks[g][v]]
+                        want_vals = tn_rows[tn_rows.vial.isin(sel)]["value"].to_numpy(dtype=float)
+                        same_vals = len(api) == len(want_vals) and np.array_equal(api, want_vals, equal_nan=True)
+                        # which vials would have to be selected to produce what the accessor returned (by count per repetition)
+                        filt[g] = (sel if same_vals else sorted(set(int(v) for v in fdf[fdf.group.isin([g]) & (fdf.seed == 0)]["vial"])), len(api))
             except Exception as e:
                 rep.violation("crash %s" % type(e).__name__,
                               "%s: group machinery raises %s: %s" % (key, type(e).__name__, str(e)[:200]),
                               dict(arrangement=arr, shape=shape, error=repr(e)[:500]))
                 continue
             # ---- oracle: the property stated directly -----------------------------------------------
+            for v in range(N):
+                if canon(arr, nz, flab.get(v, "?")) != cls[v]:
+                    rep.violation("snowfall-table-label %s" % arr, "%s vial %d of class %s is labelled %r in the Snowfall table" % (key, v, cls[v], flab.get(v)), dict(arrangement=arr, shape=shape, vial=v))
+                    break
             for g in fresh:
                 if not np.array_equal(fresh[g], masks[g]):
                     rep.violation("getVialGroup history", "%s (k=%r): getVialGroup(%r) is %s on the fresh object and %s after run()" % (
